@@ -35,11 +35,15 @@ def run_tests(scratch):
     env = dict(os.environ, PYTHONPATH=os.path.join(scratch, "src"))
     p = subprocess.run(
         [sys.executable, "-m", "pytest", "-q", "-p", "no:cacheprovider",
-         "--timeout=900", "--continue-on-collection-errors", "-x", "-q",
-         "--deselect", "tests/test_isoparser.py", "tests"],
+         "--timeout=900", "--continue-on-collection-errors", "tests"],
         cwd=scratch, env=env, capture_output=True, text=True)
     tail = p.stdout.strip().splitlines()[-1] if p.stdout.strip() else ""
-    return tail
+    # the clean tree gives "1424 passed"; fewer means the suite notices
+    import re
+    m = re.search(r"(\d+) passed", tail)
+    n = int(m.group(1)) if m else -1
+    return "%d passed (%s)" % (n, "suite unchanged" if n == 1424
+                               else "suite notices")
 
 
 def main():
